@@ -139,6 +139,7 @@ Section Link.
   Variable orc : oracle.
   Hypothesis O_sha : forall b, orc PSha512 [b] = OOk [h512 b].
   Hypothesis O_red : forall h, orc PReduce [h] = OOk [es (red h)].
+  Hypothesis red_es : forall a, red (es a ++ repeat x00 32) = a.   (* encoded scalars are canonical: reducing one gives it back *)
   Hypothesis O_base : forall a, orc PBaseMult [es a] = OOk [ep (sact a G)].
   Hypothesis O_mult : forall a P, orc PMult [es a; ep P] = OOk [ep (sact a P)].
   Hypothesis O_padd : forall P Q, orc PPointAdd [ep P; ep Q] = OOk [ep (padd P Q)].
@@ -323,11 +324,14 @@ Section Link.
     erewrite bind_done by (apply get_ok; reflexivity).
     erewrite bind_done by (apply get_ok; reflexivity).
     erewrite bind_done by apply prim1_ok, O_base.
+    erewrite bind_done by apply prim1_ok, O_red.
+    rewrite red_es.
     erewrite bind_done by apply aggregate2_ok.
     rewrite chal_ok.
     erewrite bind_done by apply prim1_ok, O_mult.
     erewrite bind_done by apply aggregate2_ok.
-    unfold put_bool. fold (boolb (bytes_eqb (ep (sact sa G)) (ep (padd R (sact (chal (padd R T) X m) X))))).
+    unfold put_bool. rewrite (proj2 (bytes_eqb_eq (es sa) (es sa)) eq_refl). cbn [andb].
+    fold (boolb (bytes_eqb (ep (sact sa G)) (ep (padd R (sact (chal (padd R T) X m) X))))).
     erewrite put_ok with (s := rest) by (first [reflexivity | (destruct (bytes_eqb _ _); cbn [boolb List.length]; lia) | lia]).
     reflexivity.
   Qed.
@@ -352,6 +356,37 @@ Section Link.
     destruct (bytes_eqb _ _) eqn:E; split; intro H; try reflexivity.
     - exfalso. apply H. apply check_bool_iff. exact E.
     - apply check_bool_iff in H. congruence.
+  Qed.
+
+  (* D22 (fixed in /repo): a byte string sa that is NOT a canonical scalar -- reducing sa || 0^32 does not give sa back:
+     bit 255 set, or any value >= L -- is refused whatever the other inputs are, even when sa G equals the right-hand side
+     (libsodium's base multiplication ignores bit 255, which is how such an sa used to pass).  [sa], [saG], [r] are
+     arbitrary byte strings here, not encodings. *)
+  Theorem check_rejects_noncanonical fr st X T m R sa saG r rest :
+    st_stack st = ep X :: ep T :: m :: ep R :: sa :: rest ->
+    orc PBaseMult [sa] = OOk [saG] ->
+    orc PReduce [sa ++ repeat x00 32] = OOk [r] -> r <> sa ->
+    1 <= c_max_item_size cfg -> List.length rest + 1 <= c_max_items cfg ->
+    interp OP_CHECK_ADAPTER_SIG fr st = Done tt fr (with_stack st ([x00] :: rest)).
+  Proof.
+    intros Hs Hb Hr Hne Hsz Hsp. unfold OP_CHECK_ADAPTER_SIG.
+    erewrite bind_done by (apply get_ok; exact Hs).
+    erewrite bind_done by (apply get_ok; reflexivity).
+    erewrite bind_done by (apply get_ok; reflexivity).
+    erewrite bind_done by (apply get_ok; reflexivity).
+    erewrite bind_done by (apply get_ok; reflexivity).
+    erewrite bind_done by (apply prim1_ok; exact Hb).
+    erewrite bind_done by (apply prim1_ok; exact Hr).
+    erewrite bind_done by apply aggregate2_ok.
+    rewrite chal_ok.
+    erewrite bind_done by apply prim1_ok, O_mult.
+    erewrite bind_done by apply aggregate2_ok.
+    unfold put_bool.
+    assert (E : bytes_eqb r sa = false).
+    { destruct (bytes_eqb r sa) eqn:B; [|reflexivity]. apply bytes_eqb_eq in B. contradiction. }
+    rewrite E. cbn [andb].
+    erewrite put_ok with (s := rest) by (first [reflexivity | cbn [List.length]; lia | lia]).
+    reflexivity.
   Qed.
 
   (* ------------------------------------------------------------------ *)
@@ -595,6 +630,7 @@ Lemma bds_es a : bds (bes a) = a. Proof. destruct a; reflexivity. Qed.
 Lemma bds_ep P : bds (bep P) = P. Proof. destruct P; reflexivity. Qed.
 Lemma b_O_sha : forall b, borc PSha512 [b] = OOk [bh512 b]. Proof. reflexivity. Qed.
 Lemma b_O_red : forall h, borc PReduce [h] = OOk [bes (bred h)]. Proof. reflexivity. Qed.
+Lemma b_red_es : forall a, bred (bes a ++ repeat x00 32) = a. Proof. intros []; reflexivity. Qed.
 Lemma b_O_base : forall a, borc PBaseMult [bes a] = OOk [bep (a && true)].
 Proof. intro a. cbn [borc]. rewrite bds_es. reflexivity. Qed.
 Lemma b_O_mult : forall a P, borc PMult [bes a; bep P] = OOk [bep (a && P)].
@@ -612,7 +648,7 @@ Lemma b_key : key_bytes bh512 bseed = bes true. Proof. vm_compute. reflexivity. 
 Example bool_adapter_instr_checks cfg run fr st T m rest :=
   adapter_instr_checks bool xorb andb bool xorb andb b_act_add_l b_act_mul true bes bep
     b_len_es b_len_ep b_ep_inj b_clamp_es bh512 b_len_h512 bred borc
-    b_O_sha b_O_red b_O_base b_O_mult b_O_padd b_O_sadd b_O_valid cfg run fr st T m bseed rest true.
+    b_O_sha b_O_red b_red_es b_O_base b_O_mult b_O_padd b_O_sadd b_O_valid cfg run fr st T m bseed rest true.
 
 Example bool_adapter_instr_decrypts cfg run fr st t m rest :=
   adapter_instr_decrypts bool false true xorb andb xorb (fun b => b) BoolTheory bool xorb
@@ -624,7 +660,7 @@ Example bool_private_instr_check_iff cfg run fr st t m rest :=
   private_instr_check_iff bool false true xorb andb xorb (fun b => b) BoolTheory bool false xorb (fun b => b)
     b_padd_comm b_padd_assoc b_padd_0_l b_padd_opp andb b_act_add_l b_act_mul true bes bep
     b_len_es b_len_ep b_ep_inj b_clamp_es bh512 b_len_h512 bred borc
-    b_O_sha b_O_red b_O_base b_O_mult b_O_padd b_O_sadd b_O_valid cfg run fr st bseed t m rest true.
+    b_O_sha b_O_red b_red_es b_O_base b_O_mult b_O_padd b_O_sadd b_O_valid cfg run fr st bseed t m rest true.
 
 (* ... and their key premise holds for the seed 08 00..00 with x = true *)
 Example bool_key_repr :
@@ -659,6 +695,7 @@ Print Assumptions make_public_computes_gen.
 Print Assumptions make_public_computes.
 Print Assumptions check_computes.
 Print Assumptions check_computes_prop.
+Print Assumptions check_rejects_noncanonical.
 Print Assumptions decrypt_computes.
 Print Assumptions adapter_instr_checks.
 Print Assumptions adapter_instr_decrypts.
